@@ -73,7 +73,57 @@ RENDER_SQL = [
     "update `table` set `key` = 1 where `User Name` = 'x'",
 ]
 RENDER_DIALECTS = ['mysql', 'postgresql', 'sqlite', 'mssql', 'oracle']
+RENDER_SQL_CASTS = ["select cast(a as float), cast(a as int), cast(a as text) from t",
+                    "select cast(a as double), cast(b as date), cast(c as varchar) from t where cast(d as float) > 1.5",
+                    "insert into t (a, b) values (1, 2), (3, 4)"]
 RENDER = [(s, d) for s in RENDER_SQL for d in RENDER_DIALECTS]
+# the renderer given the caller's dialect CLASS instead of a name (it must not be changed by any renderer)
+RENDER_CLASS = [(s, d) for s in RENDER_SQL_CASTS + RENDER_SQL[:2] for d in RENDER_DIALECTS]
+RENDER += [(s, d) for s in RENDER_SQL_CASTS for d in RENDER_DIALECTS]
+
+# a catalog with several projects and model namespaces and NO default namespace (messages that list names)
+CATALOG_MANY = dict(
+    integrations=['int1', 'int2', {'name': 'proj', 'type': 'project'}, {'name': 'proj2', 'type': 'project'},
+                  {'name': 'analytics', 'type': 'project'}, {'name': 'files', 'type': 'data'}],
+    predictor_metadata=[{'name': 'pred', 'integration_name': 'mindsdb'}, {'name': 'pred2', 'integration_name': 'proj'},
+                        {'name': 'pred3', 'integration_name': 'ml_a'}, {'name': 'pred4', 'integration_name': 'ml_b'},
+                        {'name': 'pred5', 'integration_name': 'ml_c'}])
+
+
+def dialect_class(name):
+    import importlib
+    return importlib.import_module('sqlalchemy.dialects.' + name).dialect
+
+
+def dialect_class_state():
+    """The plainly-typed attributes of the five dialect classes (what a caller that passes the class relies on)."""
+    out = {}
+    for d in RENDER_DIALECTS:
+        cls = dialect_class(d)
+        st = {}
+        for klass in cls.__mro__[:2]:
+            for k, v in vars(klass).items():
+                if k.startswith('__'):
+                    continue
+                if v is None or isinstance(v, (bool, int, float, str, tuple, frozenset)):
+                    st.setdefault(k, repr(sorted(v, key=repr)) if isinstance(v, frozenset) else repr(v))
+        st['server_version_info'] = repr(getattr(cls, 'server_version_info', None))
+        out[d] = st
+    return out
+
+
+def plan_catalog_calls(limit, rng):
+    """Planner calls under other catalogs (also one without a default namespace): routing statements of C10."""
+    from . import c10
+    out = []
+    for pos, tmpl in c10.POSITIONS.items():
+        for tk, (t1, t2) in c10.TARGETS.items():
+            sql = tmpl.replace('{T2}', t2).replace('{T}', t1)
+            for c in ('many-no-default', 'no-default', 'dicts'):
+                out.append(('planc', sql, c))
+    rng2 = random.Random(20)
+    rng2.shuffle(out)
+    return out[:limit]
 
 
 PREPARE = [
@@ -90,6 +140,7 @@ def all_calls():
     calls += [('prepare', s, None) for s in PREPARE]
     calls += [('plan', s, None) for s in PLAN]
     calls += [('render', s, d) for s, d in RENDER]
+    calls += [('renderc', s, d) for s, d in RENDER_CLASS]
     return calls
 
 
@@ -97,6 +148,8 @@ def do_call(call, catalog=None):
     """Execute one public call; the result is a comparable string."""
     from mindsdb_sql import parse_sql
     kind, sql, d = call
+    import warnings
+    warnings.filterwarnings('ignore', message='.*does not support CAST.*')
     try:
         if kind == 'parse':
             return 'tree:' + jdump(proj(parse_sql(sql, dialect=d)))
@@ -125,6 +178,15 @@ def do_call(call, catalog=None):
         if kind == 'render':
             from mindsdb_sql.render.sqlalchemy_render import SqlalchemyRender
             return 'text:' + SqlalchemyRender(d).get_string(parse_sql(sql, dialect='mindsdb'), with_failback=True)
+        if kind == 'renderc':
+            from mindsdb_sql.render.sqlalchemy_render import SqlalchemyRender
+            return 'text:' + SqlalchemyRender(dialect_class(d)).get_string(parse_sql(sql, dialect='mindsdb'), with_failback=True)
+        if kind == 'planc':
+            from mindsdb_sql.planner import plan_query
+            from . import plancorpus
+            cat = copy.deepcopy(CATALOG_MANY) if d == 'many-no-default' else plancorpus.catalog(d, with_ts=True)
+            plan = plan_query(parse_sql(sql, dialect='mindsdb'), **cat)
+            return 'plan:' + jdump(plan_proj(plan))
     except Exception as e:   # noqa
         return 'exc:%s:%s' % (type(e).__name__, str(e))
     return '?'
@@ -435,7 +497,8 @@ def run(ctx):
                       {'call': list(c), 'expected': short(baseline[c]), 'got': short(got)})
 
     # ---- (b) histories and (c) configurations against fresh processes
-    extra = corpus_calls(2000 if thorough else 300)
+    extra = corpus_calls(2000 if thorough else 300) + plan_catalog_calls(4000 if thorough else 500, rng)
+    dstate0 = dialect_class_state()
     canon = {'items': [['c%d' % i, list(c)] for i, c in enumerate(calls)] +
                       [['x%d' % i, list(c)] for i, c in enumerate(extra)]}
     base = fresh_process(canon, 0)
@@ -481,6 +544,15 @@ def run(ctx):
                               'result depends on earlier calls in the process (or on a catalog object an earlier '
                               'call modified): differs from the fresh-process result',
                               {'call': list(c), 'fresh': short(exp), 'got': short(got), 'repetition': rep})
+    dstate1 = dialect_class_state()
+    for d_ in RENDER_DIALECTS:
+        for k_ in sorted(set(dstate0[d_]) | set(dstate1[d_])):
+            if dstate0[d_].get(k_) != dstate1[d_].get(k_):
+                ctx.violation('caller-object-modified:dialect-class:%s' % d_,
+                              'rendering changed an attribute of the sqlalchemy dialect CLASS (a process-wide object the '
+                              'caller may pass or use itself)', {'dialect': d_, 'attribute': k_, 'before': dstate0[d_].get(k_),
+                                                                 'after': dstate1[d_].get(k_)})
+    ctx.cov['dialect_class_attributes_watched'] = sum(len(v) for v in dstate0.values())
     # renderer histories: ONE SqlalchemyRender object renders a sequence of statements; every text must equal the text a
     # fresh renderer gives for that statement alone
     from mindsdb_sql.render.sqlalchemy_render import SqlalchemyRender
